@@ -370,6 +370,7 @@ func findReference(msaIn io.Reader, referenceID string) (fastaio.EncodedFastaRec
 func RegionsFromGFF(anno gff.GFF, refSeqDegapped string) ([]Region, []int, error) {
 
 	IDed := make(map[string][]gff.Feature)
+	IDorder := make([]string, 0) // IDs in order of first appearance, so that the output order is reproducible
 	other := make([]gff.Feature, 0)
 	for _, f := range anno.Features {
 		if !(f.Type == "CDS" || f.Type == "mature_protein_region_of_CDS") {
@@ -378,6 +379,9 @@ func RegionsFromGFF(anno gff.GFF, refSeqDegapped string) ([]Region, []int, error
 		if f.HasAttribute("ID") {
 			id, ok := f.Attributes["ID"]
 			if ok {
+				if _, seen := IDed[id[0]]; !seen {
+					IDorder = append(IDorder, id[0])
+				}
 				IDed[id[0]] = append(IDed[id[0]], f)
 			} else {
 				IDed[id[0]] = []gff.Feature{f}
@@ -388,7 +392,8 @@ func RegionsFromGFF(anno gff.GFF, refSeqDegapped string) ([]Region, []int, error
 	}
 
 	tempcds := make([]Region, 0)
-	for _, f := range IDed {
+	for _, id := range IDorder {
+		f := IDed[id]
 		r, err := CDSRegion2fromGFF(f, refSeqDegapped)
 		if err != nil {
 			return []Region{}, []int{}, err
